@@ -754,8 +754,14 @@ class Frame(object):
         else:
             # Clip both ends to the band: a negative stop index would otherwise
             # wrap around and select channels outside of the requested range
-            bounding_min = min(max(self.get_index(bounding_f_range[0]), 0), self.fchans)
-            bounding_max = max(min(self.get_index(bounding_f_range[1]), self.fchans), 0)
+            # (limit the frequencies first: an infinite or very distant bound, as in 
+            # a one-sided range, has no integer channel index)
+            f_lo, f_hi = [min(max(unit_utils.get_value(f, u.Hz), 
+                                  self.fmin - self.df), 
+                              self.fmax + self.df) 
+                          for f in bounding_f_range]
+            bounding_min = min(max(self.get_index(f_lo), 0), self.fchans)
+            bounding_max = max(min(self.get_index(f_hi), self.fchans), 0)
         if bounding_max <= bounding_min:
             # Requested range doesn't overlap the frame
             return np.zeros(self.shape)
